@@ -9,7 +9,9 @@ import functools
 import itertools
 import numpy as np
 
-from ..engine.explore import Outcome
+from ..engine.explore import Outcome, Holder
+
+_holder = Holder()
 from ..engine import forkpool, enum, guard
 from . import signals
 
@@ -351,6 +353,8 @@ def check_spec(case):
     kw_before = impl_kwargs(source, mode, ampkind, step, nph, cap, opts)
     try:
         got, gfreq = _orig['mask_sift'](typed_input(case, x), **kw)
+        for m_ in _holder.swap((got, gfreq), 'mask_sift ' + tag):
+            viols.append(('spec:earlier-result-changed', m_))
         # the same argument objects a second time: nothing handed in may have been changed by the first call
         got2, gfreq2 = _orig['mask_sift'](typed_input(case, x), **kw)
         for k_ in ('mask_amp', 'mask_freqs'):
